@@ -24,3 +24,16 @@ Lemma bisync_dry_plan (s : state) :
   snd (bisync_dry Hh kle s) = plan kle (scan Hh (tA s)) (scan Hh (tB s)) (arch s).
 Proof. reflexivity. Qed.
 End BisyncDry.
+
+(** Non-vacuity (used by Props/C15.v): a state whose plan has two actions; the dry
+    run prints them and changes nothing, the real run applies them. *)
+Example bisync_dry_nonvacuous :
+  let Hh := fun c : list Z => c in
+  let dge := fun _ _ : list Z => true in
+  let cname := fun (p : nat) (_ : list Z) => (100 + p)%nat in
+  let s : @state nat _ _ (list Z) :=
+    {| tA := {[ 1%nat := [7]%Z ]}; tB := {[ 2%nat := [8]%Z ]}; arch := None |} in
+  bisync_dry Hh Nat.leb s = (s, [(1%nat, PropAB); (2%nat, PropBA)]) /\
+  snd (bisync_run Hh dge cname Nat.leb s) = [(1%nat, PropAB); (2%nat, PropBA)] /\
+  tB (fst (fst (bisync_run Hh dge cname Nat.leb s))) !! 1%nat = Some [7]%Z.
+Proof. vm_compute. repeat split. Qed.
